@@ -2280,8 +2280,10 @@ def subset_glyphs(self, s):
             if coverage:
                 coverage.subset(glyphs)
 
-        s.used_mark_sets = [i for i, c in enumerate(markGlyphSets.Coverage) if c.glyphs]
-        markGlyphSets.Coverage = [c for c in markGlyphSets.Coverage if c.glyphs]
+        s.used_mark_sets = [
+            i for i, c in enumerate(markGlyphSets.Coverage) if c and c.glyphs
+        ]
+        markGlyphSets.Coverage = [c for c in markGlyphSets.Coverage if c and c.glyphs]
 
     return True
 
